@@ -29,7 +29,7 @@ N_QUICK, N_THOROUGH = 1500, 25000          # texts PER STREAM
 
 
 def _strip(o):
-    return {k: v for k, v in o.items() if k not in ("stage", "unstable", "lockR", "lockW")}
+    return {k: v for k, v in o.items() if k not in ("stage", "unstable", "rebind", "remembers", "lockR", "lockW")}
 
 
 def _text(inp):
